@@ -106,6 +106,8 @@ def table():
     rows = []
     for name in sorted(os.listdir(SEEDED)):
         d = os.path.join(SEEDED, name)
+        if not os.path.isdir(d):
+            continue
         try:
             m = json.load(open(os.path.join(d, "meta.json")))
         except Exception:
@@ -147,7 +149,7 @@ if __name__ == "__main__":
             elif a[i] == "--check": chk = a[i + 1]; i += 2
             else: names.append(a[i]); i += 1
         if not names:
-            names = sorted(os.listdir(SEEDED))
+            names = sorted(n for n in os.listdir(SEEDED) if os.path.isdir(os.path.join(SEEDED, n)))
         sys.exit(detect(names, tier, runs, chk))
     elif a and a[0] == "table":
         table()
